@@ -713,6 +713,16 @@ func (t *AHtree) DataAt(n uint64) ([]byte, error) {
 	pOff := binary.BigEndian.Uint64(b[:])
 	pSize := binary.BigEndian.Uint32(b[offsetSize:])
 
+	pLogSize, err := t.pLog.Size()
+	if err != nil {
+		return nil, err
+	}
+
+	// offset and size are read from the commit log: the payload can not go beyond the data log
+	if pOff > uint64(pLogSize) || uint64(pSize) > uint64(pLogSize)-pOff {
+		return nil, ErrorCorruptedData
+	}
+
 	p := make([]byte, pSize)
 	if pSize > 0 {
 		// an empty payload has nothing to read (appendables reject empty reads)
